@@ -144,7 +144,7 @@ func walletHistory(r *evid.Run, dir string, cs int64) {
 			sc := waddrmgr.KeyScopeBIP0084
 			amt := int64(9000 + rg.Intn(9000))
 			noChange := false
-			if rg.Intn(2) == 0 {
+			if rg.Intn(3) != 0 {
 				// nearly the whole largest coin: what is left after the fee is dust, so the
 				// authored transaction has no change output (the change address was still
 				// asked for while authoring)
@@ -155,7 +155,10 @@ func walletHistory(r *evid.Run, dir string, cs int64) {
 					}
 				}
 				if best > 5000 {
-					amt, noChange = best-230-int64(rg.Intn(150)), true
+					// left over: enough for the fee of the one-input transaction WITH a
+					// change output (141 vB at 2 sat/vB = 282), not enough for that change
+					// to be above the dust threshold (294): 300..499
+					amt, noChange = best-300-int64(rg.Intn(200)), true
 				}
 			}
 			dryBefore = walletSurface(f.DB, f.W.Manager, names)
